@@ -1,3 +1,5 @@
 pub mod keygen;
+pub mod proofs;
 pub mod reftrie;
+pub mod report;
 pub mod rng;
